@@ -181,10 +181,12 @@ MANIFEST = {
             'remembered terminal outcome; proved through two invariants of the whole traversal (every ERROR record is '
             'accompanied by a remembered terminal outcome; only terminal outcomes are remembered and the first is kept). '
             'Converse decision table and "a PASS record certifies CONTINUE + passing measurements + no failure diagnosis" '
-            'are theorems too. Tie: real Test.execute() on exhaustive small trees x configurations, random and near-pass '
+            'are theorems too, as are "no traversal step removes or rewrites a record" and "a node outside subtests that '
+            'returns CONTINUE left a record for every phase it declares unconditionally, at any depth of sequences and '
+            'groups" (accounted, partial). Tie: real Test.execute() on exhaustive small trees x configurations, random and near-pass '
             'trees; NoFalsePass (incl. execute() return value, executor crash, every declared phase accounted for) is '
             'evaluated by the Lean spec on the real observation.',
     'note': 'Trusted: Lean kernel + standard axioms; harness/exec_common.py; Lean driver. Pending as a theorem (checked on '
-            'every real run): every declared phase accounted for. Known finding: repeat_on_timeout leaves an ERROR record '
+            'every real run): accounted at full strength (phases below taken branches, in unfailed subtests, with a true run_if). Known finding: repeat_on_timeout leaves an ERROR record '
             'in a passing run. Model follows the tree after fix: commits 65d36842, 44bdff7b, 1e2b6e04.',
 }
